@@ -42,6 +42,12 @@ def delivery_loops(m: Fn):
 
 
 def rule_snapshot(rep: Report, m: Fn) -> None:
+    if not delivery_loops(m):
+        rep.ob("B1-snapshot", m, f"{m.name}: delivers from a snapshot of the observers", False,
+               f"{m.parent.name}.{m.name} has no delivery loop over a snapshot taken in its own critical section (it delegates the broadcast, or "
+               f"does not broadcast): the state it stores and the set of observers it delivers to are no longer fixed in ONE atomic step — a "
+               f"subscriber arriving in between receives the value twice, or not at all")
+        return
     for s, it, var, calls in delivery_loops(m):
         ok = False
         why = f"iterates `{u(it)}`"
